@@ -357,6 +357,8 @@ class XArray:
         return tuple(out)
 
     def _binop(self, o, f, reflected=False):
+        if getattr(type(o), "_absorbing", False):
+            return o
         if isinstance(o, (list, tuple)):
             o = XArray.from_nested(o)
         if isinstance(o, XArray):
